@@ -262,8 +262,9 @@ theorem inv_crashStep (st : St) (hI : Inv st) (d : Nat) (h1 : st.durable ≤ d) 
     · exact hI.d7
     · intro hc; rw [hnc] at hc; cases hc
 
-theorem inv_step (st : St) (hI : Inv st) (op : Op) : Inv (step st op) := by
+theorem inv_step (st : St) (hI : Inv st) (op : Op) (hj : op.isJump = false) : Inv (step st op) := by
   cases op with
+  | jump u => simp [Op.isJump] at hj
   | update u blocked =>
     simp only [step]
     split
@@ -341,9 +342,170 @@ theorem inv_step (st : St) (hI : Inv st) (op : Op) : Inv (step st op) := by
       exact inv_crashStep st hI d h.1 h.2
     · exact hI
 
-theorem inv_run (st : St) (hI : Inv st) (ops : List Op) : Inv (run st ops) := by
+/-- op lists without a preimage update jumping ahead of blocked updates -/
+def NoJump (ops : List Op) : Prop := ∀ op ∈ ops, op.isJump = false
+
+theorem inv_run (st : St) (hI : Inv st) (ops : List Op) (hj : NoJump ops) : Inv (run st ops) := by
   induction ops generalizing st with
   | nil => exact hI
-  | cons op ops ih => exact ih _ (inv_step st hI op)
+  | cons op ops ih =>
+    exact ih _ (inv_step st hI op (hj op (List.mem_cons_self ..))) (fun o ho => hj o (List.mem_cons_of_mem _ ho))
+
+/-! ### the part of the invariant that survives every op, including `jump` -/
+
+structure Inv0 (st : St) : Prop where
+  h1 : st.baseId ≤ st.durable
+  h2 : st.durable ≤ st.watch
+  h3 : st.closed = false → st.watch ≤ st.latest
+  h4 : st.lo ≤ st.durable + 1
+  d2 : st.disk.unblockedId ≤ st.disk.latestId
+  d3 : st.disk.latestId ≤ st.latest
+  d4 : st.closed = false → st.disk.unblockedId ≤ st.watch
+  d5 : ∃ a, a ≤ st.durable + 1 ∧ st.disk.inFlight = List.range' a (st.disk.unblockedId + 1 - a)
+  d7 : st.baseId ≤ st.disk.latestId
+
+theorem inv0_of_inv (st : St) (h : Inv st) : Inv0 st :=
+  ⟨h.h1, h.h2, h.h3, h.h4, h.d2, h.d3, h.d4, h.d5, h.d7⟩
+
+theorem run_admissible0 (st : St) (hI : Inv0 st) (d : Nat) (hd : st.durable ≤ d) : Admissible (st.world d) := by
+  intro i hi hu
+  obtain ⟨a, ha, hl⟩ := hI.d5
+  simp only [St.world] at hi hu ⊢
+  rw [hl, List.mem_range'_1]
+  omega
+
+theorem inv0_crashStep (st : St) (hI : Inv0 st) (d : Nat) (h1 : st.durable ≤ d) (_h2 : d ≤ st.watch) :
+    Inv0 (crashStep st d) := by
+  have hb : st.baseId ≤ d := Nat.le_trans hI.h1 h1
+  obtain ⟨a, ha, hl⟩ := hI.d5
+  unfold crashStep
+  split
+  · exact hI
+  · rename_i r c hr
+    refine ⟨?_, ?_, ?_, ?_, ?_, ?_, ?_, ?_, ?_⟩ <;> simp only [St.latest] <;> try simp
+    · exact hb
+    · exact Nat.le_max_left d c
+    · exact hI.d2
+    · exact hI.d3
+    · exact ⟨a, by omega, hl⟩
+    · exact hI.d7
+  · rename_i r hr
+    obtain ⟨hs, _, _⟩ := reload_resumed _ _ hr
+    have hle : d ≤ st.disk.latestId := by
+      by_cases hlt : st.disk.latestId < d
+      · have : (st.world d).stale = true := by
+          rw [stale_iff]; right; right; right; simpa [St.world] using hlt
+        rw [hs] at this; cases this
+      · omega
+    have hd3 := hI.d3
+    have hlen : st.baseId + (List.take (st.disk.latestId - st.baseId) st.upds).length = st.disk.latestId := by
+      simp only [St.latest] at hd3
+      rw [List.length_take]; have := hI.d7; omega
+    refine ⟨?_, ?_, ?_, ?_, ?_, ?_, ?_, ?_, ?_⟩ <;> simp only [St.latest] <;> try simp only [hlen]
+    · exact hb
+    · exact Nat.le_max_left d _
+    · intro _; exact Nat.max_le.mpr ⟨hle, hI.d2⟩
+    · exact Nat.le_refl _
+    · exact hI.d2
+    · exact Nat.le_refl _
+    · intro _; exact Nat.le_max_right d _
+    · exact ⟨a, by omega, hl⟩
+    · exact hI.d7
+
+theorem inv0_step (st : St) (hI : Inv0 st) (op : Op) : Inv0 (step st op) := by
+  cases op with
+  | update u blocked =>
+    simp only [step]
+    split
+    · exact hI
+    · rename_i hc
+      have hc : st.closed = false := by simpa using hc
+      have h3 := hI.h3 hc
+      have hd3 := hI.d3
+      simp only [St.latest] at h3 hd3
+      split
+      · refine ⟨hI.h1, hI.h2, ?_, hI.h4, hI.d2, ?_, hI.d4, hI.d5, hI.d7⟩ <;> simp only [St.latest, List.length_append, List.length_singleton]
+        · intro _; omega
+        · omega
+      · rename_i hb
+        simp only [Bool.or_eq_true, decide_eq_true_eq, not_or, Nat.not_lt] at hb
+        refine ⟨hI.h1, ?_, ?_, hI.h4, hI.d2, ?_, ?_, hI.d5, hI.d7⟩ <;> simp only [St.latest, List.length_append, List.length_singleton]
+        · have := hI.h2; omega
+        · intro _; omega
+        · omega
+        · intro h; have := hI.d4 h; omega
+  | jump u =>
+    simp only [step]
+    split
+    · exact hI
+    · rename_i hc
+      have hc : st.closed = false := by simpa using hc
+      have h3 := hI.h3 hc
+      have hd3 := hI.d3
+      have h1 := hI.h1
+      have h2 := hI.h2
+      simp only [St.latest] at h3 hd3
+      have hlen : (List.take (st.watch - st.baseId) st.upds ++ u :: List.drop (st.watch - st.baseId) st.upds).length = st.upds.length + 1 := by
+        simp only [List.length_append, List.length_take, List.length_cons, List.length_drop]; omega
+      refine ⟨hI.h1, ?_, ?_, hI.h4, hI.d2, ?_, ?_, hI.d5, hI.d7⟩ <;> simp only [St.latest, hlen]
+      · omega
+      · intro _; omega
+      · omega
+      · intro h; have := hI.d4 h; omega
+  | release =>
+    simp only [step]
+    split
+    · rename_i h
+      simp only [Bool.and_eq_true, Bool.not_eq_true', decide_eq_true_eq] at h
+      refine ⟨hI.h1, ?_, ?_, hI.h4, hI.d2, hI.d3, ?_, hI.d5, hI.d7⟩
+      · have := hI.h2; simp only; omega
+      · intro _; simp only [St.latest] at h ⊢; omega
+      · intro hc; have := hI.d4 hc; simp only; omega
+    · exact hI
+  | complete k =>
+    simp only [step]
+    split
+    · rename_i h
+      simp only [Bool.and_eq_true, decide_eq_true_eq] at h
+      obtain ⟨a, ha, hl⟩ := hI.d5
+      refine ⟨?_, ?_, hI.h3, ?_, hI.d2, hI.d3, hI.d4, ⟨a, ?_, hl⟩, hI.d7⟩ <;> simp only
+      · have := hI.h1; omega
+      · omega
+      · have := hI.h4; omega
+      · omega
+    · exact hI
+  | notify =>
+    simp only [step]
+    split
+    · rename_i h
+      simp only [decide_eq_true_eq] at h
+      refine ⟨hI.h1, hI.h2, hI.h3, ?_, hI.d2, hI.d3, hI.d4, hI.d5, hI.d7⟩
+      simp only; omega
+    · exact hI
+  | persistManager =>
+    simp only [step]
+    split
+    · exact hI
+    · rename_i hc
+      have hc : st.closed = false := by simpa using hc
+      have h3 := hI.h3 hc
+      refine ⟨hI.h1, hI.h2, hI.h3, hI.h4, ?_, ?_, ?_, ?_, ?_⟩ <;> simp only [St.curMgr, St.latest] at h3 ⊢
+      · exact h3
+      · exact Nat.le_refl _
+      · intro _; exact Nat.le_refl _
+      · exact ⟨st.lo, hI.h4, rfl⟩
+      · omega
+  | crash d =>
+    simp only [step]
+    split
+    · rename_i h
+      simp only [Bool.and_eq_true, decide_eq_true_eq] at h
+      exact inv0_crashStep st hI d h.1 h.2
+    · exact hI
+
+theorem inv0_run (st : St) (hI : Inv0 st) (ops : List Op) : Inv0 (run st ops) := by
+  induction ops generalizing st with
+  | nil => exact hI
+  | cons op ops ih => exact ih _ (inv0_step st hI op)
 
 end Ldk.Restart
